@@ -312,9 +312,9 @@ def layer_pairs(fa):
     region = fa.operand("_region")
     try:
         per = layer_axis_slices(fa)
-    except ValueError as e:
+    except Exception as e:  # noqa: BLE001
         per = None
-        err = "err " + str(e)
+        err = "err " + (str(e) if isinstance(e, ValueError) and " " not in str(e) else type(e).__name__)
     pairs = []
     for k in range(len(dims)):
         r = "N" if region is None else f_slice(region[k])
@@ -382,7 +382,15 @@ def rechunk_pair(rng, fa):
         if stl is not None and len(stl) == len(eff) and stl[k] > 0 and r < 0.45:
             start = 0 if region is None else region[k].indices(dims[k])[0]
             target.append(aligned_target(rng, start, n, stl[k]))
-        elif r < 0.55:
+        elif stl is not None and len(stl) == len(eff) and stl[k] > 0 and r < 0.62 and n > 0:
+            # storage-multiple chunk sizes regardless of where the region starts
+            out, left = [], n
+            while left > 0:
+                c = min(left, stl[k] * rng.randint(1, 2))
+                out.append(c)
+                left -= c
+            target.append(tuple(out))
+        elif r < 0.72:
             target.append(tuple(fa.chunks[k]))
         else:
             target.append(gen.rand_chunks(rng, n, zeros=0.1, maxparts=5))
@@ -492,6 +500,10 @@ def correspondence(ctx):
             continue
         with np_limit(limit):
             for step in range(rng.randint(1, 4)):
+                try:
+                    fa.chunks  # noqa: B018
+                except Exception:  # noqa: BLE001
+                    break  # inconsistent node: already recorded as `err` by the accept that produced it
                 lay.extend(layer_pairs(fa))
                 reg = fa.operand("_region")
                 ordered = reg is None or all(r.indices(d)[0] <= r.indices(d)[1] for r, d in zip(reg, fa.array.shape))
@@ -527,7 +539,10 @@ def correspondence(ctx):
                     break
                 fa = new
             else:
-                lay.extend(layer_pairs(fa))
+                try:
+                    lay.extend(layer_pairs(fa))
+                except Exception:  # noqa: BLE001
+                    pass
     fams.append(("FromArray._accept_slice", acc, lambda req, m: (m.split(" ")[0], m[-12:], req.count("|"))))
     fams.append(("FromArray._layer", lay, lambda req, m: (req.split(" ")[2] == "N", m.count(";"), "?" in m)))
     fams.append(("FromArray._accept_rechunk", rech,
@@ -544,6 +559,7 @@ def correspondence(ctx):
         ref = np.arange(n)
         chain = []
         ok = True
+        crashed = None
         for _ in range(rng.randint(1, ctx.scale(4, 8))):
             m = len(ref)
             r = rng.random()
@@ -557,23 +573,33 @@ def correspondence(ctx):
                 i = gen.rand_slice(rng, m, steps=(2, -1, -2))
                 ref2 = ref[i]
             chain.append(i)
-            if not ok:
+            if not ok or crashed:
                 continue
-            res = fa._accept_slice(SimpleNamespace(index=(i,)))
+            try:
+                res = fa._accept_slice(SimpleNamespace(index=(i,)))
+                if res is not None:
+                    nxt = res if isinstance(res, FA.FromArray) else res.array
+                    nxt.chunks  # noqa: B018  (materialise: may raise on inconsistent chunks)
+            except Exception as e:  # noqa: BLE001
+                crashed = err_name(e)
+                continue
             if res is None:
                 ok = False
                 continue
-            fa = res if isinstance(res, FA.FromArray) else res.array
+            fa = nxt
             ref = ref2
         req = f"io.accept_chain {n} {f_list(cks)} {f_index(tuple(chain))}"
+        if crashed:
+            pairs.append((req, crashed))
+            continue
         if not ok:
             pairs.append((req, "decline"))
             continue
         try:
             per = layer_axis_slices(fa)[0]
             s_tok = ";".join(f"{a}:{b}" for a, b in per) if per else "_"
-        except ValueError as e:
-            s_tok = "err-" + str(e)
+        except Exception as e:  # noqa: BLE001
+            s_tok = "err-" + str(e)[:40].replace(" ", "_")
         pairs.append((req, f"ok R={f_regions(fa.operand('_region'))} C={f_list(fa.chunks[0])} S={s_tok} P={f_list(ref)}"))
     fams.append(("accept-chain(1-d):region/chunks/slices/NumPy positions", pairs,
                  lambda req, m: (m[:7], req.count("|"), m.count(";"))))
@@ -763,6 +789,7 @@ def search(ctx):
     budget = ctx.scale(35, 420)
     t0 = ctx.elapsed()
     done = 0
+    shrunk = set()  # minimise the first failure of each signature only
     total_reads = 0
     for _ in range(n):
         if ctx.elapsed() - t0 > budget:
@@ -776,7 +803,8 @@ def search(ctx):
         if done % 97 == 0:
             ctx.sample({"program": case, "outcome": "ok" if sig is None else sig})
         if sig is not None:
-            small = shrink(case, sig)
+            small = shrink(case, sig) if sig not in shrunk else case
+            shrunk.add(sig)
             s2, d2 = run_case(small)
             if s2 != sig:
                 small, d2 = case, det
